@@ -1284,7 +1284,21 @@ func runFSCleanup(c *core.Ctx) {
 						}
 						if len(bb.Instrs) > 0 {
 							if ret, ok := bb.Instrs[len(bb.Instrs)-1].(*ssa.Return); ok {
-								return retErrNil(ret)
+								if retErrNil(ret) {
+									return true
+								}
+								// what is returned must be an error for certain: the removal's own error (not nil on this side) or a
+								// freshly made one — another error variable that happens to be in scope (the collection's result) may be nil
+								if len(ret.Results) > 0 {
+									rv := ret.Results[len(ret.Results)-1]
+									if types.Identical(rv.Type(), types.Universe.Lookup("error").Type()) {
+										own := an.ErrAliases(rm)
+										if !own[rv] && !own[an.Origin(rv)] && an.Origin(rv) != ssa.Value(rm) && !an.DefiniteError(rv) {
+											return true
+										}
+									}
+								}
+								return false
 							}
 						}
 						for _, s := range bb.Succs {
